@@ -2126,6 +2126,7 @@ GENERATORS = {
     "GenPartition.v": lambda src: __import__("harness.translate_partition", fromlist=["translate_partition"]).translate_partition(src),
     "GenJoinIndex.v": lambda src: __import__("harness.translate_partition", fromlist=["translate_join_index"]).translate_join_index(src),
     "GenSanitize.v": lambda src: __import__("harness.translate_sanitize", fromlist=["translate_sanitize"]).translate_sanitize(src),
+    "GenNa.v": lambda src: __import__("harness.translate_reduce", fromlist=["translate_na"]).translate_na(src),
 }
 
 
@@ -2186,6 +2187,7 @@ SCRIPTS = [            # (committed proof script, generated modules it needs)
     ("EqPartition.v", ["GenPartition.v"]),
     ("EqJoinIndex.v", ["GenJoinIndex.v"]),
     ("EqSanitize.v", ["GenSanitize.v"]),
+    ("EqNa.v", ["GenNa.v"]),
 ]
 NEEDED_VO = ["Base/GenPrelude", "Props/C04", "Props/C07", "Props/C18", "Props/C11", "Props/C16", "Props/C05", "Props/C19", "Props/C14", "Props/C06", "Props/C12", "Props/C09", "Props/C17"]
 BUDGET = float(__import__("os").environ.get("SERIF_TRANSLATE_BUDGET", "28"))   # seconds for one run()
